@@ -50,14 +50,18 @@ def html_docs(tier):
 
 
 def css_docs(tier):
+    "yields (shape, rotation, layout, last declaration without `;`, statement menu?)"
     b = BOUNDS[tier]
     for n in range(1, b['css_nodes'] + 1):
         for sh in CD.shapes(n, 3):
             for rot in range(b['rotations']):
                 for lay in ('compact', 'spaced'):
-                    yield sh, rot, lay, False
+                    yield sh, rot, lay, False, False
                     if has_last_decl(sh):
-                        yield sh, rot, lay, True
+                        yield sh, rot, lay, True, False
+            if n <= b['css_nodes'] - 1:
+                for rot in range(len(CD.DECLS_WITH_STATEMENT)):
+                    yield sh, rot, 'compact', False, True
 
 
 def has_last_decl(sh):
@@ -169,8 +173,9 @@ def sel_model(n):
 def check_css_pos(text, nodes, p):
     bad = []
     rules = [n for n in nodes if n['kind'] == 'rule']
-    # get_css_section
-    if not any(p == r['start'] or p == r['end'] for r in rules):
+    has_stmt = any(n['kind'] == 'stmt' for n in nodes)
+    # get_css_section (documents with value-less statements: only select_item_* is specified)
+    if not has_stmt and not any(p == r['start'] or p == r['end'] for r in rules):
         enc = [r for r in rules if r['start'] < p < r['end']]
         enc.sort(key=lambda r: r['end'] - r['start'])
         try:
@@ -212,19 +217,23 @@ def check_css_pos(text, nodes, p):
                             bad.append(('get_css_section:after-offset', dict(expected=w_['after'], got=g.after, prop=g.to_json())))
     # select_item_css
     items = sorted(nodes, key=lambda n: n['start'])
-    in_head = any((n['kind'] == 'decl' and n['start'] < p < n['end']) or (n['kind'] == 'rule' and n['sel'][0] < p < n['sel'][1])
+    in_head = any((n['kind'] in ('decl', 'stmt') and n['start'] < p < n['end']) or (n['kind'] == 'rule' and n['sel'][0] < p < n['sel'][1])
                   for n in nodes)
 
     def model(n):
+        if n['kind'] == 'stmt':
+            return (n['name'][0], n['name'][1], [tuple(n['name'])])
         return decl_model(n) if n['kind'] == 'decl' else sel_model(n)
     if not in_head:
         nxt = [n for n in items if n['start'] >= p]
+        if nxt and nxt[0]['kind'] == 'stmt':
+            nxt = None      # whether "next" stops at a value-less statement is left unspecified (only "previous" is checked for them)
         try:
             m = select_item_css(text, p, False)
         except Exception as ex:
             bad.append(('select_item_css:exception:%s' % type(ex).__name__, str(ex)[:100]))
             m = 'EXC'
-        if m != 'EXC':
+        if m != 'EXC' and nxt is not None:
             exp = model(nxt[0]) if nxt else None
             if exp is not None and 'tokens' not in nxt[0] and nxt[0]['kind'] == 'decl':
                 # value tokens not recorded for this declaration text: compare full and value range only
@@ -273,10 +282,10 @@ def run_shard(shard, ctx, tier):
         if text:
             ctx.sample(dict(document=text))
         return
-    for idx, (sh, rot, lay, nosemi) in enumerate(css_docs(tier)):
+    for idx, (sh, rot, lay, nosemi, stmts) in enumerate(css_docs(tier)):
         if idx % of != k:
             continue
-        text, nodes = CD.emit(sh, rot, lay, CD.DECLS_TOKENS, nosemi)
+        text, nodes = CD.emit(sh, rot, lay, CD.DECLS_WITH_STATEMENT if stmts else CD.DECLS_TOKENS, nosemi)
         ctx.states += 1
         for p in range(len(text) + 1):
             ctx.tick((text, p))
@@ -286,7 +295,8 @@ def run_shard(shard, ctx, tier):
             if nodes:
                 ctx.nontrivial += 1
             for cls, d in check_css_pos(text, nodes, p):
-                ctx.violation(cls, dict(lang='css', shape=sh, rotation=rot, layout=lay, last_without_semicolon=nosemi, pos=p, text=text), d)
+                ctx.violation(cls, dict(lang='css', shape=sh, rotation=rot, layout=lay, last_without_semicolon=nosemi, statements=stmts,
+                                        pos=p, text=text), d)
         ctx.outcome(('css', len(nodes), len(text)))
     if text:
         ctx.sample(dict(stylesheet=text))
@@ -304,7 +314,8 @@ def check_case(case):
     if case['lang'] == 'html':
         text, elements = HD.emit(_untuple(case['forest']), False)
         return check_html_pos(text, elements, case['pos'])
-    text, nodes = CD.emit(_tup(case['shape']), case['rotation'], case['layout'], CD.DECLS_TOKENS, case['last_without_semicolon'])
+    text, nodes = CD.emit(_tup(case['shape']), case['rotation'], case['layout'],
+                          CD.DECLS_WITH_STATEMENT if case.get('statements') else CD.DECLS_TOKENS, case['last_without_semicolon'])
     return check_css_pos(text, nodes, case['pos'])
 
 
